@@ -90,7 +90,13 @@ lines.append("Each sub-agent saw only the text of one property and a scratch "
              "careful test author generates the obvious dimensions; put "
              "your defect on an input nobody thought of'; 14 of 20 were "
              "caught as the checks stood (many on dimensions added in "
-             "rounds 6-12). %d changes in total: %d rejected as outside the "
+             "rounds 6-12). Round 17 (S17-*) split the same instruction in "
+             "two: usage patterns a per-case test does not exercise (objects, "
+             "option dictionaries and buffers that serve several calls; "
+             "results still in use; repeated steps with changed inputs) and "
+             "legal input variants a convenient writer does not produce "
+             "(optional header / info members, format options); 12 of 20 "
+             "were caught as the checks stood. %d changes in total: %d rejected as outside the "
              "quantified domain (marked), %d not detected (marked, a "
              "documented limit), %d detected; "
              "the 'caught by' column says when a check had to be "
